@@ -34,6 +34,7 @@ type c12 struct {
 	lEnc, lDec, lPad, lUnpad, lCrypt, lB64Enc, lB64Dec string
 	fPad, fUnpad, fAesNew, fCBCEnc, fCBCDec            *ssa.Function
 	key                                                *ssa.Global
+	cmacFields                                         int // number of fields of struct cmac (0: not resolved)
 }
 
 func runC12(c *Ctx) {
@@ -41,6 +42,7 @@ func runC12(c *Ctx) {
 	r.Explanation = "C12 RC4 / CMAC / PKCS#7 / GPP, decided statically on go/ssa and the typed AST; no Manticore code is executed, no cipher is run. " +
 		"R1-effects (parameter-rooted write summaries + the package-wide who-writes table; a slice header and its backing store are one cell): (*cmac).Sum stores to none of the running-state fields ci, p, k1, k2, c of its receiver (digest is its scratch buffer) — necessary for 'CMAC is unaffected by earlier Sum calls'; (*cmac).Reset writes exactly ci (every element, the constant 0, in a loop over ci) and p (the constant 0) and nothing else; in package cmac the only functions that write ci/p are New, Reset and Write, and k1/k2/c are written by New only; in package rc4 the only functions that write RC4.s/i/j are NewRC4WithKey, Reset and XORKeyStream. " +
 		"R2-gpp-pairing (E5 provenance + constants): GPPP_AES_KEY's initialiser is the 32 bytes published in MS-GPPREF 2.2.1.1.4 and no function of the module stores to the variable or writes through it; GPPPEncrypt: the CryptBlocks source derives from the plaintext through exactly EncodeUTF16LE and pkcs7.Pad(·, aes.BlockSize), the mode is cipher.NewCBCEncrypter(aes.NewCipher(GPPP_AES_KEY), iv) with iv a fresh 16-byte zero buffer that nothing writes, the destination is make([]byte, len(source)), and the result is base64.StdEncoding.EncodeToString of that destination; GPPPDecryptBytes is the mirror: cipher.NewCBCDecrypter with the SAME key variable and a fresh zero iv, source = the ciphertext parameter itself, guarded by a dominating len(ciphertext) % aes.BlockSize test (CryptBlocks panics on partial blocks), destination make([]byte, len(ciphertext)), result = DecodeUTF16LE(pkcs7.Unpad(destination)); GPPPDecryptBase64 returns GPPPDecryptBytes(base64.StdEncoding.DecodeString(·)) of its argument. " +
+		"Shapes decided (behaviour-preserving rewrites stay silent): a writer of a running-state field that is not one of the named entry points is accepted when it is an unexported function or method that is never used as a value, is not reachable through an interface, and whose every static call site lies in a named writer or in another such helper (the rule is about which ENTRY POINTS change the state; a helper reachable from anything else still fires); Reset may zero ci by a loop, by clear(ci) or through such a helper; cmac's fields other than c, k1, k2, ci, p are scratch space (the R1 floor is computed from the declared fields); GPPPEncrypt may encrypt the padded plaintext in place; the block test may be len % 16 or len & 15. " +
 		"NOT decided: that RC4 output equals standard RC4 (KSA/PRGA arithmetic), that CMAC equals RFC 4493 / SP 800-38B (sub-key derivation, last-block selection, padding arithmetic), invariance of either under chunking of the streaming calls, that pkcs7.Unpad(pkcs7.Pad(m, b)) = m and that every invalid padding is rejected (value-level; Pad returning a multiple of the block size is an assumption of R2), AES/CBC/base64 numerics (standard library, trusted), the base64 re-padding arithmetic in GPPPDecryptBase64."
 	r.Assumptions = []string{
 		cryTrusted,
@@ -53,7 +55,14 @@ func runC12(c *Ctx) {
 	x.guard(c12R1, "R1 analysis", "", x.effects)
 	x.guard(c12R2, "R2 analysis", "", x.gpp)
 	x.finish()
-	r.Floor(c12R1, 21)
+	// R1 instances are keyed to declarations, not to copies of code: 5 running-state
+	// fields Sum must not store to, one Reset obligation per declared field of cmac,
+	// 2 reset values (ci elements, p), 5 + 3 who-writes rows (cmac, rc4).
+	if x.cmacFields > 0 {
+		r.Floor(c12R1, 5+x.cmacFields+2+5+3)
+	} else {
+		r.Floor(c12R1, 21)
+	}
 	r.Floor(c12R2, 18)
 }
 
@@ -131,9 +140,16 @@ func (x *c12) whoWrites(rel string, T *types.Named, allowed map[string][]string)
 		sort.Strings(names)
 		bad, und := "", ""
 		var at token.Pos
+		var helpers []string
 		for _, nm := range names {
 			w := byField[f][nm]
 			if has(allowed[f], nm) {
+				continue
+			}
+			// an unexported helper that only the allowed writers can reach is part of
+			// them: the rule is about which ENTRY POINTS change the running state
+			if ok, via := x.privateHelper(w.Fn, rel, allowed[f], map[*ssa.Function]bool{}); ok {
+				helpers = append(helpers, nm+" (unexported, reached only from "+via+")")
 				continue
 			}
 			at = w.Pos
@@ -144,7 +160,11 @@ func (x *c12) whoWrites(rel string, T *types.Named, allowed map[string][]string)
 				break
 			}
 		}
-		x.verdict(c12R1, construct, at, bad, und, "written by {"+strings.Join(names, ", ")+"}")
+		okMsg := "written by {" + strings.Join(names, ", ") + "}"
+		if len(helpers) > 0 {
+			okMsg += "; helpers: " + strings.Join(helpers, "; ")
+		}
+		x.verdict(c12R1, construct, at, bad, und, okMsg)
 	}
 	x.R.Extra["who_writes "+rel+"."+T.Obj().Name()] = func() map[string][]string {
 		m := map[string][]string{}
@@ -156,6 +176,76 @@ func (x *c12) whoWrites(rel string, T *types.Named, allowed map[string][]string)
 		}
 		return m
 	}()
+}
+
+// privateHelper: fn is an unexported function or method (or a closure of one)
+// that is never used as a value and is not reachable through an interface, and
+// every static call of it sits in an allowed writer or in another such helper.
+// Then fn cannot run except on behalf of an allowed writer. via names the
+// allowed writers (or "nothing": dead code) it is reached from.
+func (x *c12) privateHelper(fn *ssa.Function, rel string, allowed []string, seen map[*ssa.Function]bool) (bool, string) {
+	for fn.Parent() != nil {
+		fn = fn.Parent()
+	}
+	if has(allowed, fn.Name()) {
+		return true, fn.Name()
+	}
+	if seen[fn] {
+		return true, ""
+	}
+	seen[fn] = true
+	if ast.IsExported(fn.Name()) || fn.Name() == "init" || fn.Name() == "main" || fn.Synthetic != "" {
+		return false, ""
+	}
+	obj := fn.Object()
+	var via []string
+	for _, g := range x.pkgFuncs(rel) {
+		for _, b := range g.Blocks {
+			for _, in := range b.Instrs {
+				if ci, ok := in.(ssa.CallInstruction); ok {
+					cc := ci.Common()
+					// dispatch through an interface that has a method of this name
+					if cc.IsInvoke() && cc.Method.Name() == fn.Name() && fn.Signature.Recv() != nil {
+						return false, ""
+					}
+					if cc.StaticCallee() == fn {
+						if _, isGo := in.(*ssa.Go); isGo {
+							return false, "" // runs concurrently with (and after) its caller
+						}
+						for _, a := range cc.Args {
+							if a == ssa.Value(fn) {
+								return false, ""
+							}
+						}
+						ok, v := x.privateHelper(g, rel, allowed, seen)
+						if !ok {
+							return false, ""
+						}
+						if v != "" && !has(via, v) {
+							via = append(via, v)
+						}
+						continue
+					}
+				}
+				for _, op := range in.Operands(nil) {
+					if *op == nil {
+						continue
+					}
+					if *op == ssa.Value(fn) {
+						return false, "" // used as a value
+					}
+					if f2, ok := (*op).(*ssa.Function); ok && obj != nil && f2 != fn && f2.Object() == obj {
+						return false, "" // bound-method wrapper / thunk of fn used as a value
+					}
+				}
+			}
+		}
+	}
+	if len(via) == 0 {
+		return true, "nothing (it has no caller)"
+	}
+	sort.Strings(via)
+	return true, strings.Join(via, ", ")
 }
 
 func (x *c12) effects() {
@@ -170,14 +260,19 @@ func (x *c12) effects() {
 	} else if T, fields := structFields(pk.Types, "cmac"); T == nil {
 		x.R.Undecided("anchor", cryCMAC+".cmac", "", "struct type does not resolve")
 	} else {
-		scratch := "digest"
-		if !has(fields, scratch) || !has(fields, "ci") || !has(fields, "p") {
-			x.R.Undecided("anchor", cryCMAC+".cmac fields", "", "expected fields ci, p, digest; found "+strings.Join(fields, ", "))
+		// the running state a later Write/Sum continues from; any other field of the
+		// struct (today: digest) is scratch space Sum may use
+		state := []string{"c", "k1", "k2", "ci", "p"}
+		for _, f := range state {
+			if !has(fields, f) {
+				x.R.Undecided("anchor", cryCMAC+".cmac fields", "", "expected running-state fields c, k1, k2, ci, p; found "+strings.Join(fields, ", "))
+			}
 		}
+		x.cmacFields = len(fields)
 		if fSum != nil {
 			ws := x.e.Writes(fSum)
-			for _, f := range fields {
-				if f == scratch {
+			for _, f := range state {
+				if !has(fields, f) {
 					continue
 				}
 				construct := fmt.Sprintf("%s: stores to cmac.%s", x.P.FuncName(fSum), f)
@@ -253,9 +348,35 @@ func (x *c12) effects() {
 
 // resetValues: Reset stores the constant 0 into every element of ci and into p.
 func (x *c12) resetValues(fn *ssa.Function) {
-	name := x.P.FuncName(fn)
+	x.resetValuesIn(fn, x.P.FuncName(fn), 0)
+}
+
+// resetValuesIn looks at g, which runs on Reset's receiver (Reset itself, or an
+// in-module helper Reset passes its receiver to).
+func (x *c12) resetValuesIn(fn *ssa.Function, name string, depth int) {
+	if len(fn.Params) == 0 {
+		return
+	}
+	recv := fn.Params[0]
 	for _, b := range fn.Blocks {
 		for _, in := range b.Instrs {
+			if call, isCall := in.(ssa.CallInstruction); isCall {
+				cc := call.Common()
+				// clear(d.ci): every element becomes the zero value
+				if bi, isB := cc.Value.(*ssa.Builtin); isB && bi.Name() == "clear" && len(cc.Args) == 1 {
+					if ld, ok := cc.Args[0].(*ssa.UnOp); ok && ld.Op == token.MUL {
+						if fa, ok := ld.X.(*ssa.FieldAddr); ok && fa.X == ssa.Value(recv) {
+							f := fieldNameOf(fa)
+							x.R.OK(c12R1, fmt.Sprintf("%s: every %s[i] = 0", name, f), x.pos(in.Pos()), "clear("+f+") zeroes every element")
+						}
+					}
+					continue
+				}
+				if g := cc.StaticCallee(); g != nil && g != fn && depth < 2 && g.Blocks != nil && x.P.InModule(g) && len(cc.Args) > 0 && cc.Args[0] == ssa.Value(recv) && g.Signature.Recv() != nil {
+					x.resetValuesIn(g, name, depth+1)
+				}
+				continue
+			}
 			st, ok := in.(*ssa.Store)
 			if !ok {
 				continue
@@ -543,7 +664,11 @@ func (x *c12) side(fn *ssa.Function, enc bool) {
 	}
 	// destination
 	dc := name + ": destination = make([]byte, len(source))"
-	if m, ok := flow.Strip(dst).(*ssa.MakeSlice); ok {
+	if enc && flow.Strip(dst) == flow.Strip(src) {
+		// cipher.BlockMode.CryptBlocks: "dst and src must overlap entirely or not at all";
+		// the padded plaintext is a local temporary, so encrypting it in place is unobservable
+		x.R.OK(c12R2, dc, x.pos(cb.Pos()), "in place: destination and source are the same buffer (exact overlap is allowed)")
+	} else if m, ok := flow.Strip(dst).(*ssa.MakeSlice); ok {
 		if lc, ok := m.Len.(*ssa.Call); ok && len(lc.Call.Args) == 1 && flow.Strip(lc.Call.Args[0]) == flow.Strip(src) {
 			x.R.OK(c12R2, dc, x.pos(m.Pos()), "")
 		} else {
@@ -555,7 +680,15 @@ func (x *c12) side(fn *ssa.Function, enc bool) {
 	if enc {
 		// source = Pad(EncodeUTF16LE(plaintext), aes.BlockSize)
 		set := x.e.Prov(fn, src)
-		bad, und := judge(set, []need{{what: "the plaintext", src: isParam(0), must: []string{x.lEnc, x.lPad}}}, constsOnly)
+		srcNeed := need{what: "the plaintext", src: isParam(0), must: []string{x.lEnc, x.lPad}}
+		other := others(constsOnly)
+		if flow.Strip(dst) == flow.Strip(src) {
+			// in place: what CryptBlocks writes back into the buffer (key, iv and the
+			// buffer itself through the cipher) is not an input of the encryption
+			srcNeed.allow = []string{x.lCrypt}
+			other = func(o flow.Origin) bool { return constsOnly(o) || o.Has(x.lCrypt) }
+		}
+		bad, und := judge(set, []need{srcNeed}, other)
 		x.verdict(c12R2, name+": source = pkcs7.Pad(EncodeUTF16LE(plaintext), ·)", cb.Pos(), bad, und, trim(set.String(), 160))
 		pc := name + ": pad block size = aes.BlockSize; whole blocks reach CryptBlocks"
 		if pad, idx, ok := tupleResult(src, x.fPad); ok && idx == 0 {
@@ -650,10 +783,11 @@ func (x *c12) blockGuard(fn *ssa.Function, call *ssa.Call, src ssa.Value) bool {
 			continue
 		}
 		rb, ok := rem.(*ssa.BinOp)
-		if !ok || rb.Op != token.REM {
+		if !ok || (rb.Op != token.REM && rb.Op != token.AND) {
 			continue
 		}
-		if m, isK := constI(rb.Y); !isK || m != 16 {
+		// len % 16, or the equivalent mask len & 15
+		if m, isK := constI(rb.Y); !isK || (rb.Op == token.REM && m != 16) || (rb.Op == token.AND && m != 15) {
 			continue
 		}
 		lc, ok := rb.X.(*ssa.Call)
